@@ -31,17 +31,17 @@ func cloneB(b []byte) []byte {
 
 func alphaT(o []byte) []byte { return append(cloneB(o), 0) }
 
-func newAlphaString(raw []RawKey) TreeDriver {
+func newAlphaString[V any](raw []RawKey, vt valType[V]) TreeDriver {
 	var cs []cand[string]
 	for _, r := range raw {
 		cs = append(cs, cand[string]{string(r.B), r.Probe})
 	}
 	cs, _ = buildUniverse(cs, strings.Compare)
-	d := &Driver[string, int]{
+	d := &Driver[string, V]{
 		name: "alpha/string", family: "alpha",
 		ident:   func(k string) string { return "b:" + k },
-		newTree: func() art.Tree[string, int] { return art.NewAlphaSortedTree[string, int]() },
-		mkVal:   intVal, valID: intID,
+		newTree: func() art.Tree[string, V] { return art.NewAlphaSortedTree[string, V]() },
+		mkVal: vt.mk, valID: vt.id,
 		hasPrefix: true, hasRange: true,
 		emptyKey: func() (string, bool) { return "", true },
 	}
@@ -53,17 +53,17 @@ func newAlphaString(raw []RawKey) TreeDriver {
 	return d
 }
 
-func newAlphaBytes(raw []RawKey) TreeDriver {
+func newAlphaBytes[V any](raw []RawKey, vt valType[V]) TreeDriver {
 	var cs []cand[[]byte]
 	for _, r := range raw {
 		cs = append(cs, cand[[]byte]{cloneB(r.B), r.Probe})
 	}
 	cs, _ = buildUniverse(cs, bytes.Compare)
-	d := &Driver[[]byte, int]{
+	d := &Driver[[]byte, V]{
 		name: "alpha/bytes", family: "alpha",
 		ident:   func(k []byte) string { return "b:" + string(k) },
-		newTree: func() art.Tree[[]byte, int] { return art.NewAlphaSortedTree[[]byte, int]() },
-		mkVal:   intVal, valID: intID,
+		newTree: func() art.Tree[[]byte, V] { return art.NewAlphaSortedTree[[]byte, V]() },
+		mkVal: vt.mk, valID: vt.id,
 		hasPrefix: true, hasRange: true,
 		emptyKey: func() ([]byte, bool) { return []byte{}, true },
 		passKey:  cloneB,
@@ -115,18 +115,18 @@ func patBytes(p uint64, w int) []byte {
 
 func newUnsigned[K interface {
 	uint8 | uint16 | uint32 | uint64 | uint
-}](name string, w int, raw []RawKey) TreeDriver {
+}, V any](name string, w int, raw []RawKey, vt valType[V]) TreeDriver {
 	var cs []cand[K]
 	for _, r := range raw {
 		cs = append(cs, cand[K]{K(pattern(r.B, w)), r.Probe})
 	}
 	cs, _ = buildUniverse(cs, cmpOrdered[K])
 	codec := art.UnsignedBinaryKey[K]{}
-	d := &Driver[K, int]{
+	d := &Driver[K, V]{
 		name: name, family: "unsigned",
 		ident:   func(k K) string { return fmt.Sprintf("u:%d", uint64(k)) },
-		newTree: func() art.Tree[K, int] { return art.NewUnsignedBinaryTree[K, int]() },
-		mkVal:   intVal, valID: intID,
+		newTree: func() art.Tree[K, V] { return art.NewUnsignedBinaryTree[K, V]() },
+		mkVal: vt.mk, valID: vt.id,
 		hasRange: true, leafByT: true,
 	}
 	for _, c := range cs {
@@ -140,7 +140,7 @@ func newUnsigned[K interface {
 
 func newSigned[K interface {
 	int8 | int16 | int32 | int64 | int
-}](name string, w int, raw []RawKey) TreeDriver {
+}, V any](name string, w int, raw []RawKey, vt valType[V]) TreeDriver {
 	var cs []cand[K]
 	for _, r := range raw {
 		p := pattern(r.B, w)
@@ -150,11 +150,11 @@ func newSigned[K interface {
 	}
 	cs, _ = buildUniverse(cs, cmpOrdered[K])
 	codec := art.SignedBinaryKey[K]{}
-	d := &Driver[K, int]{
+	d := &Driver[K, V]{
 		name: name, family: "signed",
 		ident:   func(k K) string { return fmt.Sprintf("i:%d", int64(k)) },
-		newTree: func() art.Tree[K, int] { return art.NewSignedBinaryTree[K, int]() },
-		mkVal:   intVal, valID: intID,
+		newTree: func() art.Tree[K, V] { return art.NewSignedBinaryTree[K, V]() },
+		mkVal: vt.mk, valID: vt.id,
 		hasRange: true, leafByT: true,
 	}
 	for _, c := range cs {
@@ -210,18 +210,18 @@ func floatRangeOK(a, b float64) bool {
 	return true
 }
 
-func newFloat64(raw []RawKey) TreeDriver {
+func newFloat64[V any](raw []RawKey, vt valType[V]) TreeDriver {
 	var cs []cand[float64]
 	for _, r := range raw {
 		cs = append(cs, cand[float64]{math.Float64frombits(pattern(r.B, 8)), r.Probe})
 	}
 	cs, _ = buildUniverse(cs, floatCmp)
 	codec := art.FloatBinaryKey[float64]{}
-	d := &Driver[float64, int]{
+	d := &Driver[float64, V]{
 		name: "float64", family: "float",
 		ident:   floatIdent64,
-		newTree: func() art.Tree[float64, int] { return art.NewFloatBinaryTree[float64, int]() },
-		mkVal:   intVal, valID: intID,
+		newTree: func() art.Tree[float64, V] { return art.NewFloatBinaryTree[float64, V]() },
+		mkVal: vt.mk, valID: vt.id,
 		hasRange: true, leafByT: true,
 		rangeOK: floatRangeOK,
 	}
@@ -234,14 +234,14 @@ func newFloat64(raw []RawKey) TreeDriver {
 	return d
 }
 
-func newFloat32(raw []RawKey) TreeDriver {
+func newFloat32[V any](raw []RawKey, vt valType[V]) TreeDriver {
 	var cs []cand[float32]
 	for _, r := range raw {
 		cs = append(cs, cand[float32]{math.Float32frombits(uint32(pattern(r.B, 4))), r.Probe})
 	}
 	cs, _ = buildUniverse(cs, func(a, b float32) int { return floatCmp(float64(a), float64(b)) })
 	codec := art.FloatBinaryKey[float32]{}
-	d := &Driver[float32, int]{
+	d := &Driver[float32, V]{
 		name: "float32", family: "float",
 		ident: func(f float32) string {
 			if f != f {
@@ -249,8 +249,8 @@ func newFloat32(raw []RawKey) TreeDriver {
 			}
 			return fmt.Sprintf("f:%08x", math.Float32bits(f))
 		},
-		newTree: func() art.Tree[float32, int] { return art.NewFloatBinaryTree[float32, int]() },
-		mkVal:   intVal, valID: intID,
+		newTree: func() art.Tree[float32, V] { return art.NewFloatBinaryTree[float32, V]() },
+		mkVal: vt.mk, valID: vt.id,
 		hasRange: true, leafByT: true,
 		rangeOK: func(a, b float32) bool { return floatRangeOK(float64(a), float64(b)) },
 	}
@@ -318,7 +318,7 @@ func collKeyOf(c *collate.Collator, s []byte) []byte {
 	return cloneB(c.Key(&buf, s))
 }
 
-func newCollation(ktype, cname string, raw []RawKey, plainPrefix bool) TreeDriver {
+func newCollation[V any](ktype, cname string, raw []RawKey, plainPrefix bool, vt valType[V]) TreeDriver {
 	spec, ok := collators[cname]
 	if !ok {
 		panic("unknown collator " + cname)
@@ -338,13 +338,13 @@ func newCollation(ktype, cname string, raw []RawKey, plainPrefix bool) TreeDrive
 	}
 	switch ktype {
 	case "string":
-		d := &Driver[string, int]{
+		d := &Driver[string, V]{
 			name: name, family: "collation",
 			ident: func(k string) string { return "b:" + k },
-			newTree: func() art.Tree[string, int] {
-				return art.NewCollationSortedTree[string, int](art.WithCollator[string, int](mkCollator(spec)))
+			newTree: func() art.Tree[string, V] {
+				return art.NewCollationSortedTree[string, V](art.WithCollator[string, V](mkCollator(spec)))
 			},
-			mkVal: intVal, valID: intID,
+			mkVal: vt.mk, valID: vt.id,
 			hasPrefix: plainPrefix, hasRange: false,
 		}
 		for _, c := range cs {
@@ -354,13 +354,13 @@ func newCollation(ktype, cname string, raw []RawKey, plainPrefix bool) TreeDrive
 		d.finish()
 		return d
 	case "bytes":
-		d := &Driver[[]byte, int]{
+		d := &Driver[[]byte, V]{
 			name: name, family: "collation",
 			ident: func(k []byte) string { return "b:" + string(k) },
-			newTree: func() art.Tree[[]byte, int] {
-				return art.NewCollationSortedTree[[]byte, int](art.WithCollator[[]byte, int](mkCollator(spec)))
+			newTree: func() art.Tree[[]byte, V] {
+				return art.NewCollationSortedTree[[]byte, V](art.WithCollator[[]byte, V](mkCollator(spec)))
 			},
-			mkVal: intVal, valID: intID,
+			mkVal: vt.mk, valID: vt.id,
 			hasPrefix: plainPrefix, hasRange: false,
 			passKey: cloneB,
 		}
@@ -374,11 +374,11 @@ func newCollation(ktype, cname string, raw []RawKey, plainPrefix bool) TreeDrive
 		if cname != "und" {
 			panic("[]rune collation trees only exist with the default collator")
 		}
-		d := &Driver[[]rune, int]{
+		d := &Driver[[]rune, V]{
 			name: name, family: "collation",
 			ident:   func(k []rune) string { return "b:" + string(k) },
-			newTree: func() art.Tree[[]rune, int] { return art.NewCollationSortedTree[[]rune, int]() },
-			mkVal:   intVal, valID: intID,
+			newTree: func() art.Tree[[]rune, V] { return art.NewCollationSortedTree[[]rune, V]() },
+			mkVal: vt.mk, valID: vt.id,
 			hasPrefix: plainPrefix, hasRange: false,
 			passKey: func(k []rune) []rune { return append([]rune{}, k...) },
 		}
@@ -610,7 +610,7 @@ func rawToTuple(s Schema, b []byte) Tuple {
 	return canonTuple(s, t)
 }
 
-func newCompound(s Schema, raw []RawKey) TreeDriver {
+func newCompound[V any](s Schema, raw []RawKey, vt valType[V]) TreeDriver {
 	var cs []cand[Tuple]
 	for _, r := range raw {
 		cs = append(cs, cand[Tuple]{rawToTuple(s, r.B), r.Probe})
@@ -624,11 +624,11 @@ func newCompound(s Schema, raw []RawKey) TreeDriver {
 		}
 	}
 	_ = hasFloat
-	d := &Driver[Tuple, int]{
+	d := &Driver[Tuple, V]{
 		name: "compound/" + s.String(), family: "compound",
 		ident:   tupleIdent(s),
-		newTree: func() art.Tree[Tuple, int] { return art.NewCompoundTree[Tuple, int](codec) },
-		mkVal:   intVal, valID: intID,
+		newTree: func() art.Tree[Tuple, V] { return art.NewCompoundTree[Tuple, V](codec) },
+		mkVal: vt.mk, valID: vt.id,
 		hasRange: true, leafByT: true,
 	}
 	for _, c := range cs {
@@ -681,52 +681,63 @@ func kindWidth(name string) int {
 	return 0
 }
 
-// NewDriver builds the driver of a named kind over a raw universe.
-func NewDriver(name string, raw []RawKey) TreeDriver {
-	d := newDriver(name, raw)
+// valType describes how a value type is made from / mapped back to an integer id.
+type valType[V any] struct {
+	name string
+	mk   func(int) V
+	id   func(V) int
+}
+
+var intVT = valType[int]{"int", intVal, intID}
+
+// NewDriver builds the driver of a named kind over a raw universe (int values).
+func NewDriver(name string, raw []RawKey) TreeDriver { return NewDriverV(name, raw, intVT) }
+
+func NewDriverV[V any](name string, raw []RawKey, vt valType[V]) TreeDriver {
+	d := newDriver(name, raw, vt)
 	d.setRaw(raw)
 	return d
 }
 
-func newDriver(name string, raw []RawKey) TreeDriver {
+func newDriver[V any](name string, raw []RawKey, vt valType[V]) TreeDriver {
 	switch name {
 	case "alpha/string":
-		return newAlphaString(raw)
+		return newAlphaString(raw, vt)
 	case "alpha/bytes":
-		return newAlphaBytes(raw)
+		return newAlphaBytes(raw, vt)
 	case "uint8":
-		return newUnsigned[uint8](name, 1, raw)
+		return newUnsigned[uint8](name, 1, raw, vt)
 	case "uint16":
-		return newUnsigned[uint16](name, 2, raw)
+		return newUnsigned[uint16](name, 2, raw, vt)
 	case "uint32":
-		return newUnsigned[uint32](name, 4, raw)
+		return newUnsigned[uint32](name, 4, raw, vt)
 	case "uint64":
-		return newUnsigned[uint64](name, 8, raw)
+		return newUnsigned[uint64](name, 8, raw, vt)
 	case "uint":
-		return newUnsigned[uint](name, uintBytes, raw)
+		return newUnsigned[uint](name, uintBytes, raw, vt)
 	case "int8":
-		return newSigned[int8](name, 1, raw)
+		return newSigned[int8](name, 1, raw, vt)
 	case "int16":
-		return newSigned[int16](name, 2, raw)
+		return newSigned[int16](name, 2, raw, vt)
 	case "int32":
-		return newSigned[int32](name, 4, raw)
+		return newSigned[int32](name, 4, raw, vt)
 	case "int64":
-		return newSigned[int64](name, 8, raw)
+		return newSigned[int64](name, 8, raw, vt)
 	case "int":
-		return newSigned[int](name, uintBytes, raw)
+		return newSigned[int](name, uintBytes, raw, vt)
 	case "float32":
-		return newFloat32(raw)
+		return newFloat32(raw, vt)
 	case "float64":
-		return newFloat64(raw)
+		return newFloat64(raw, vt)
 	}
 	if rest, ok := strings.CutPrefix(name, "collation/"); ok {
 		parts := strings.Split(rest, "/")
 		if len(parts) == 2 {
-			return newCollation(parts[0], parts[1], raw, true)
+			return newCollation(parts[0], parts[1], raw, true, vt)
 		}
 	}
 	if rest, ok := strings.CutPrefix(name, "compound/"); ok {
-		return newCompound(parseSchema(rest), raw)
+		return newCompound(parseSchema(rest), raw, vt)
 	}
 	panic("unknown kind " + name)
 }
